@@ -398,6 +398,8 @@ def composed_bases(cls, inner):
             B.append({'gate': g(n), 'frozen_params': ()})
             B.append({'gate': g(n), 'frozen_params': ((0, 0.5),)})
             B.append({'gate': g(n), 'frozen_params': ((0, 0.0),)})
+            # nearly the same value: another gate (an approximate __eq__ would identify them)
+            B.append({'gate': g(n), 'frozen_params': ((0, 0.5 + 1e-10),)})
             if k > 1:
                 B.append({'gate': g(n), 'frozen_params': ((0, 0.5), (1, 0.25))})
                 B.append({'gate': g(n), 'frozen_params': ((0, 0.25), (1, 0.5))})
@@ -770,14 +772,16 @@ def _parts(g):
 
 
 def innermost(kind, x, y):
-    """Class to blame for a pair failure: descend into the inner gates while an
-    inner pair shows the same failure.  ':name' is appended when the innermost
-    pair are two equal CircuitGates whose operations hash alike but whose names
-    (str of the operations' gates) differ."""
+    """(kind, class) to blame for a pair failure: descend into the inner gates
+    while an inner pair shows the same failure - or another one, which then is
+    the root cause (two ConstantUnitaryGates of different radixes that compare
+    equal make the gates built on them compare equal and hash differently).
+    ':name' is appended when the innermost pair are two equal CircuitGates whose
+    operations hash alike but whose names (str of the operations' gates) differ."""
     a, b = x.g, y.g
     for _ in range(8):
         pa, pb = _parts(a), _parts(b)
-        nxt = None
+        nxt = other = None
         if pa and len(pa) == len(pb):
             for ia, ib in zip(pa, pb):
                 try:
@@ -787,6 +791,10 @@ def innermost(kind, x, y):
                 if any(k == kind for k, _t in fs):
                     nxt = (ia, ib)
                     break
+                if fs and other is None:
+                    other = (ia, ib, fs[0][0])
+        if nxt is None and other is not None:
+            nxt, kind = other[:2], other[2]
         if nxt is None:
             break
         a, b = nxt
@@ -799,7 +807,7 @@ def innermost(kind, x, y):
                 det = ':name'
         except Exception:
             pass
-    return type(a).__name__ + det
+    return kind, type(a).__name__ + det
 
 
 def innermost_unhashable(g):
@@ -900,8 +908,10 @@ def check_identity(ck, found, base_specs, rng, thorough):
             pending[sig] = (size, what, rep, found_input)
 
     def report_pair(kind, text, x, y):
-        report(kind, innermost(kind, x, y),
-               f'a = {x.expr}; b = {y.expr}: {text}',
+        k2, c = innermost(kind, x, y)
+        if k2 != kind:
+            text += f' (root cause: {k2} of the inner {c.split(":")[0]}s)'
+        report(k2, c, f'a = {x.expr}; b = {y.expr}: {text}',
                {'a_expr': x.expr, 'b_expr': y.expr, 'params': point(x.np_), 'oracle': kind})
 
     dist = {}
@@ -958,7 +968,7 @@ def check_identity(ck, found, base_specs, rng, thorough):
                 ntrans += 1
                 e = safe_eq(vs[i].g, vs[k].g)
                 if e is False or e is np.False_:
-                    report('eq-intransitive', innermost('eq-intransitive', vs[i], vs[k]),
+                    report(*innermost('eq-intransitive', vs[i], vs[k]),
                            f'a = {vs[i].expr}; b = {vs[j].expr}; c = {vs[k].expr}: '
                            'a == b and b == c but a != c',
                            {'a_expr': vs[i].expr, 'b_expr': vs[j].expr, 'c_expr': vs[k].expr,
@@ -1048,11 +1058,10 @@ def replay_pair(rp):
     for x, y in it.combinations(xs, 2):
         fs, _e = pair_failures(x, y)
         for kind, text in fs:
-            out.append((kind, innermost(kind, x, y),
-                        f'a = {x.expr}; b = {y.expr}: {text}'))
+            out.append((*innermost(kind, x, y), f'a = {x.expr}; b = {y.expr}: {text}'))
     if len(xs) == 3:
         a, b, c = (v.g for v in xs)
         if safe_eq(a, b) is True and safe_eq(b, c) is True and safe_eq(a, c) is False:
-            out.append(('eq-intransitive', innermost('eq-intransitive', xs[0], xs[2]),
+            out.append((*innermost('eq-intransitive', xs[0], xs[2]),
                         'a == b and b == c but a != c'))
     return out
